@@ -282,6 +282,8 @@ def witness_pool():
             put("qa-sel:%s:%s" % (o, i), _sel(o, "t", [["sub", sub]]))
             put("qa-fn:%s:%s" % (o, i), _sel(o, "t", [["func", "F", [["sub", {"k": "sel", "cls": o, "from": [["q", sub]], "joins": [],
                                                                             "selects": [["t", ["star", None]]]}]], None]]))
+            put("qa-gb:%s:%s" % (o, i), _sel(o, "t", [["t", _F("a")]], groupby=[["sub", {"k": "sel", "cls": o, "from": [["q", sub]], "joins": [],
+                                                                                           "selects": [["t", ["star", None]]]}]]))
             put("qa-set:%s:%s" % (o, i), {"k": "set", "base": {"k": "sel", "cls": o, "from": [["q", sub]], "joins": [], "selects": [["t", ["star", None]]]},
                                          "ops": [["union", _sel(o, "v", [["t", _F("c")]])]]})
     kw = {"q": "`", "rest": ['"', '"', True]}
@@ -405,6 +407,9 @@ WITNESS_KEYS = [
     'qa-fn:SnowflakeQuery:PostgreSQLQuery',
     'qa-from:OracleQuery:PostgreSQLQuery',
     'qa-from:SnowflakeQuery:PostgreSQLQuery',
+    'qa-gb:MySQLQuery:PostgreSQLQuery',
+    'qa-gb:OracleQuery:PostgreSQLQuery',
+    'qa-gb:SnowflakeQuery:PostgreSQLQuery',
     'qa-join:MySQLQuery:PostgreSQLQuery',
     'qa-join:OracleQuery:PostgreSQLQuery',
     'qa-join:SnowflakeQuery:PostgreSQLQuery',
@@ -505,10 +510,10 @@ class Sentinels:
             kind = "funcarg-term"
         elif "funcarg" in path:
             kind = "funcarg"
-        elif "groupby" in path:
-            kind = "groupby"
         elif path and path[0] == "setop":
             kind = "setop-top"
+        elif "groupby" in path:
+            kind = "groupby"
         elif not path:
             kind = "top"
         else:
@@ -1277,7 +1282,7 @@ def predicted_findings():
             qa_i = (conv[i]["qa"] or conv[o]["q"]) or None
             qa_o = (conv[o]["qa"] or conv[o]["q"]) or None
             if qa_i != qa_o:
-                for kind in ("from", "join", "select-sub", "funcarg", "setop-top"):
+                for kind in ("from", "join", "select-sub", "funcarg", "setop-top", "groupby"):
                     add(["C07", o, i, kind, "query-alias"],
                         "the alias of a %s sub-query (%s position) inside a %s statement is quoted with the SUB-query class's "
                         "ALIAS_QUOTE_CHAR / QUERY_ALIAS_QUOTE_CHAR (QueryBuilder.get_sql overwrites alias_quote_char with its own constants)"
